@@ -300,9 +300,68 @@ def handleB : List String → String
     | _, _ => "bad-op"
   | _ => "bad-op"
 
+/-! `x <S|L> <D|I> <T><partial>:<r0><r1><r2> G=<tab> S=<tab> D=<tab> <token>… [O:…]`: sessions whose recipients stand
+for several effective addresses (`X<k><j>` = RCPT TO the address with id `k` in domain `j`). -/
+
+def parseXA (s : String) : Option XA :=
+  match s.toList with
+  | [k, j] => do
+    let k ← digit? k
+    let j ← digit? j
+    if k > 7 || j > 3 then none else pure (k, j)
+  | _ => none
+
+def parseXTab (s : String) : Option XTab :=
+  if s == "-" then some [] else
+  (s.splitOn ",").mapM (fun ent =>
+    match ent.splitOn ">" with
+    | [k, vs] => do
+      let k ← parseXA k
+      let vs ← if vs == "" then some [] else (vs.splitOn "+").mapM parseXA
+      pure (k, vs)
+    | _ => none)
+
+def parseXToks : List String → Nat → Option (List XTok)
+  | [], _ => some []
+  | t :: ts, i =>
+    if t.startsWith "X" then do
+      let a ← parseXA (t.drop 1).toString
+      let rest ← parseXToks ts (i + 1)
+      pure (XTok.rcpt ⟨1000 + a.1 * 4 + a.2, a.1, a.2, .plain, .perm, false, false, xMask a.1⟩ a :: rest)
+    else
+      match parseToks [t] i none none with
+      | some [k] => (parseXToks ts (i + 1)).map (XTok.plain k :: ·)
+      | _ => none
+
+def handleX : List String → String
+  | p :: m :: cfgS :: gS :: sS :: dS :: rest =>
+    match cfgS.toList with
+    | [t, pmk, ':', r0, r1, r2] =>
+      match digit? t, digit? pmk, digit? r0, digit? r1, digit? r2 with
+      | some nT, some pmask, some r0, some r1, some r2 =>
+        if (p != "S" && p != "L") || (m != "D" && m != "I") || nT < 1 || nT > 3
+            || !gS.startsWith "G=" || !sS.startsWith "S=" || !dS.startsWith "D=" then "bad-op" else
+        let (toksS, orS) := match rest.reverse with
+          | last :: init => if last.startsWith "O:" then (init.reverse, last) else (rest, "O:-")
+          | [] => ([], "O:-")
+        match parseXTab (gS.drop 2).toString, parseXTab (sS.drop 2).toString, parseXTab (dS.drop 2).toString,
+            parseXToks toksS 0, parseOracle orS with
+        | some g, some s, some d, some toks, some oracle =>
+          let routes : Nat → Nat := fun j => if j == 0 then r0 else if j == 1 then r1 else if j == 2 then r2 else 0
+          let cfg : Cfg := ⟨p == "L", m == "D", nT, pmask, routes⟩
+          let (st, outs) := xRun cfg g s d { w := { oracle := oracle } } toks
+          let tg := (List.range nT).map (fun k =>
+            s!"t{k}:" ++ String.join ((st.w.log.filter (fun d => d.tgt == k)).map showDel))
+          " ".intercalate (outs.map showOut) ++ " | " ++ " ".intercalate tg ++ s!" | panics={st.w.panics}"
+        | _, _, _, _, _ => "bad-op"
+      | _, _, _, _, _ => "bad-op"
+    | _ => "bad-op"
+  | _ => "bad-op"
+
 def handle : List String → String
   | "t" :: rest => handleT rest
   | "b" :: rest => handleB rest
+  | "x" :: rest => handleX rest
   | "s" :: p :: m :: cfgS :: rest0 =>
     let (scopes, rest) : Option (Bool × Bool × Bool) × List String := match rest0 with
       | t :: ts => if t.startsWith "P" then (parsePeer t, ts) else (some (true, true, true), rest0)
